@@ -66,7 +66,14 @@ pub fn gen(ctx: &Ctx) -> Vec<Value> {
         let mut r = rng.fork();
         let sub = r.0;
         let depth = if ctx.thorough() { 1 + r.below(4) as u32 } else { 1 + r.below(3) as u32 };
-        let schema = gen_schema::gen_schema(&mut r, depth);
+        let mut schema = gen_schema::gen_schema(&mut r, depth);
+        // C03 (type equality): half of the random schemas carry metadata at every level, strategies, sorted / renamed /
+        // nullable-entries maps, sparse unions, nullable union children (gen_schema::vary_types)
+        if r.bool() {
+            for f in schema.iter_mut() {
+                gen_schema::vary_types(&mut r, f, false);
+            }
+        }
         let nrows = match r.below(10) {
             0 => 0,
             1 => 1,
@@ -90,6 +97,88 @@ pub fn gen(ctx: &Ctx) -> Vec<Value> {
     out
 }
 
+/// marrow → back end field conversion under catch_unwind (third-party code)
+fn conv_fields<T>(f: impl FnOnce() -> Result<Vec<T>, marrow::error::MarrowError>) -> Result<Vec<T>, Value> {
+    let mut kept = None;
+    let out = outcome::run(|| {
+        kept = Some(f()?);
+        Ok::<Value, marrow::error::MarrowError>(Value::Null)
+    });
+    match kept {
+        Some(v) if outcome::is_ok(&out) => Ok(v),
+        _ => Err(json!({"field_err": if out.get("panic").is_some() { "panic" } else { "err" }})),
+    }
+}
+
+fn cls_of(out: &Value) -> &'static str {
+    if out.get("ok").is_some() {
+        "ok"
+    } else if out.get("err").is_some() {
+        "err"
+    } else {
+        "panic"
+    }
+}
+
+/// C03 on the arrow / arrow2 outputs (the independent oracle): the same fields and rows through `to_arrow`,
+/// `to_record_batch`, `to_arrow2`; per returned array arrow-rs' `validate_full` and the comparison of the array's
+/// `data_type()` with the data type of the back end's own field.  No message text, no type names: classes and booleans.
+fn backends(fields: &[marrow::datatypes::Field], rows: &[Value]) -> Value {
+    let mut out = serde_json::Map::new();
+    // ---- arrow
+    let afields = conv_fields(|| fields.iter().map(|f| Ok(std::sync::Arc::new(arrow_schema::Field::try_from(f)?))).collect());
+    match &afields {
+        Err(e) => {
+            out.insert("arrow".into(), e.clone());
+            out.insert("batch".into(), e.clone());
+        }
+        Ok(af) => {
+            let af: &Vec<arrow_schema::FieldRef> = af;
+            let mut per = Vec::new();
+            let run = outcome::run(|| {
+                let arrays = serde_arrow::to_arrow(af, &Rows(rows))?;
+                for (f, a) in af.iter().zip(arrays.iter()) {
+                    let valid = match std::panic::catch_unwind(std::panic::AssertUnwindSafe(|| a.to_data().validate_full())) {
+                        Ok(Ok(())) => "ok",
+                        Ok(Err(_)) => "err",
+                        Err(_) => "panic",
+                    };
+                    per.push(json!({"valid": valid, "type_eq": a.data_type() == f.data_type(), "len": a.len()}));
+                }
+                Ok::<Value, serde_arrow::Error>(json!(arrays.len()))
+            });
+            out.insert("arrow".into(), json!({"run": cls_of(&run), "arrays": per}));
+            let mut brows = Value::Null;
+            let brun = outcome::run(|| {
+                let b = serde_arrow::to_record_batch(af, &Rows(rows))?;
+                brows = json!(b.num_rows());
+                Ok::<Value, serde_arrow::Error>(Value::Null)
+            });
+            out.insert("batch".into(), json!({"run": cls_of(&brun), "rows": brows}));
+        }
+    }
+    // ---- arrow2
+    let a2fields = conv_fields(|| fields.iter().map(arrow2::datatypes::Field::try_from).collect());
+    match &a2fields {
+        Err(e) => {
+            out.insert("arrow2".into(), e.clone());
+        }
+        Ok(af) => {
+            let af: &Vec<arrow2::datatypes::Field> = af;
+            let mut per = Vec::new();
+            let run = outcome::run(|| {
+                let arrays = serde_arrow::to_arrow2(af, &Rows(rows))?;
+                for (f, a) in af.iter().zip(arrays.iter()) {
+                    per.push(json!({"type_eq": a.data_type() == f.data_type(), "len": a.len()}));
+                }
+                Ok::<Value, serde_arrow::Error>(json!(arrays.len()))
+            });
+            out.insert("arrow2".into(), json!({"run": cls_of(&run), "arrays": per}));
+        }
+    }
+    Value::Object(out)
+}
+
 pub fn exec(input: &Value) -> Value {
     let fields: Vec<marrow::datatypes::Field> = input["schema"].as_array().unwrap().iter().map(field_from_json).collect();
     let rows = input["rows"].as_array().unwrap();
@@ -101,9 +190,10 @@ pub fn exec(input: &Value) -> Value {
             // independent validity oracle: arrow-rs validates when it takes the array over
             let res = std::panic::catch_unwind(std::panic::AssertUnwindSafe(|| arrow_array::ArrayRef::try_from(a)));
             arrow_check.push(match res {
-                Ok(Ok(arr)) => match arr.to_data().validate_full() {
-                    Ok(()) => json!({"ok": arr.len()}),
-                    Err(e) => json!({"err": e.to_string()}),
+                Ok(Ok(arr)) => match std::panic::catch_unwind(std::panic::AssertUnwindSafe(|| arr.to_data().validate_full())) {
+                    Ok(Ok(())) => json!({"ok": arr.len()}),
+                    Ok(Err(e)) => json!({"err": e.to_string()}),
+                    Err(_) => json!({"panic": true}),
                 },
                 Ok(Err(e)) => json!({"conv_err": e.to_string()}),
                 Err(_) => json!({"panic": true}),
@@ -111,10 +201,12 @@ pub fn exec(input: &Value) -> Value {
         }
         Ok::<Value, serde_arrow::Error>(Value::Array(dumped))
     });
+    let back = if outcome::is_ok(&imp) { backends(&fields, rows) } else { Value::Null };
     let mut case = input.clone();
     let obj = case.as_object_mut().unwrap();
     obj.insert("aux".into(), gen_schema::aux_for(&input["schema"], &input["rows"]));
     obj.insert("impl".into(), imp);
     obj.insert("arrow".into(), Value::Array(arrow_check));
+    obj.insert("backends".into(), back);
     case
 }
